@@ -258,7 +258,7 @@ def gen_case(r, malformed=False):
             extra.append("_".join([iname] + p) + r.choice(["", "", "_"]))
         extra = sorted(set(extra))
     port = r.random() < 0.75
-    child = dict(n=iname, port=port, cf=r.random() < 0.3, fc=r.choice([0, 0, 1, 1, 2, 3]), role=r.choice([None] + ROLES), extra=extra)
+    child = dict(n=iname, port=port, cf=r.random() < 0.3, fc=r.choice([0, 0, 1, 1, 2, 3]), role=r.choice([None] + ROLES), extra=extra, rfresh=r.random() < 0.3)
     case = dict(defs=defs, top=top, child=child, probe=probe, parent=None)
     u = r.random()
     if not port or (u < 0.2 and not malformed):
